@@ -72,6 +72,18 @@ def opSpec : Op := fun j => do
     outObj [("grid", outRatList r.grid), ("f", outFlList r.f), ("w", outFlList r.w), ("parts", parts)]
   pure (Json.arr res.toArray)
 
-def ops : OpTable := [("c07.crps", opCrps), ("c07.brier", opBrier), ("c07.stepweight", opStepWeight), ("c07.spec", opSpec)]
+/-- the Spec's observation CDF `H(x) = 1{obs ≤ x}` on the union grid of `thr` (and, with `include`, the finite
+    observations), one row per observation (NaN observation: NaN row).  `H` is read off the Spec's own integrand:
+    `brierAt obs x 0 1 = 1·(0 − H(x))² = H(x)` — exact rationals at any magnitude, no tolerance. -/
+def opHeaviside : Op := fun j => do
+  let thr ← fRatList j "thr"; let obs ← fFlList j "obs"; let incl ← fBool j "include"
+  let grid := SV.Spec.Cdf.union thr (if incl then finOnly obs else [])
+  let rows := obs.map fun o => match o with
+    | Fl.fin q => grid.map fun x => Fl.fin (SV.Spec.CrpsCdf.brierAt q x 0 1)
+    | _ => grid.map fun _ => Fl.nan
+  pure <| outObj [("grid", outRatList grid), ("rows", outFlMat rows)]
+
+def ops : OpTable := [("c07.crps", opCrps), ("c07.brier", opBrier), ("c07.stepweight", opStepWeight), ("c07.spec", opSpec),
+  ("c07.heaviside", opHeaviside)]
 
 end SV.Driver.C07
